@@ -53,7 +53,13 @@ def _escape(c):
         return _union([_chr(x) for x in ' \t\n\r\x0b\x0c'])
     if c == 'w':
         return _union([_range('a', 'z'), _range('A', 'Z'), _range('0', '9'), _chr('_')])
-    if c in 'DSWbBAZ':
+    if c == 'S':
+        return z3.Intersect(_any(), z3.Complement(_escape('s')))
+    if c == 'D':
+        return z3.Intersect(_any(), z3.Complement(_escape('d')))
+    if c == 'W':
+        return z3.Intersect(_any(), z3.Complement(_escape('w')))
+    if c in 'bBAZ':
         raise Unsupported('regex escape \\%s' % c)
     m = {'n': '\n', 't': '\t', 'r': '\r'}
     return _chr(m.get(c, c))
